@@ -424,6 +424,49 @@ static void run_futex(uint64_t seed, const char* corpus) {
       for (auto& t : w->fr.back()->tok) t.store(0, std::memory_order_relaxed);
     }
     w->clients.push_back({Op {OP_WAKE_ONE}});
+  } else if (!strcmp(corpus, "cancel_head_vs_wake_all")) {
+    // the newest waiter is cancelled while wake_all walks the list; afterwards the slots are reused by
+    // further waits on the same futex and woken again: a node wake_all skipped must be marked unlinked
+    w->nfut = 1;
+    npools = 1;
+    minted = 3;
+    for (int h = 0; h < 3; ++h) {
+      w->fr.emplace_back(new FrameSt);
+      w->fr.back()->exec = h == 2 ? 1 : 0;
+      for (int r = 0; r < 3; ++r) w->fr.back()->waits.push_back({0, 0});
+      for (auto& t : w->fr.back()->tok) t.store(0, std::memory_order_relaxed);
+    }
+    auto cancel = [](int h, int r) {
+      Op c;
+      c.k = OP_CANCEL;
+      c.h = h;
+      c.r = r;
+      return c;
+    };
+    w->clients.push_back({cancel(1, 0), cancel(0, 0), Op {OP_YIELD}, cancel(1, 1), cancel(2, 0)});
+    w->clients.push_back({Op {OP_WAKE_ALL}, Op {OP_YIELD}, Op {OP_WAKE_ALL}, Op {OP_WAKE_ALL}});
+    w->clients.push_back({Op {OP_YIELD}, Op {OP_WAKE_ALL}, Op {OP_WAKE_ONE}});
+  } else if (!strcmp(corpus, "waiter_vs_store_wake")) {
+    // new waiters racing with `value = new; wake_all()`: the comparison and the parking must be one
+    // atomic step, a waiter must not park on a word that no longer matches
+    w->nfut = 1;
+    npools = 2;
+    minted = K;
+    w->has_set = true;
+    for (int h = 0; h < 3; ++h) {
+      w->fr.emplace_back(new FrameSt);
+      w->fr.back()->exec = h;
+      for (int r = 0; r < 2; ++r) w->fr.back()->waits.push_back({0, (uint64_t)r});
+      for (auto& t : w->fr.back()->tok) t.store(0, std::memory_order_relaxed);
+    }
+    Op s1;
+    s1.k = OP_SET;
+    s1.v = 1;
+    Op s2;
+    s2.k = OP_SET;
+    s2.v = 2;
+    w->clients.push_back({s1, Op {OP_WAKE_ALL}, Op {OP_YIELD}, s2, Op {OP_WAKE_ALL}});
+    w->clients.push_back({Op {OP_YIELD}, Op {OP_WAKE_ONE}});
   } else {
     fprintf(stderr, "unknown corpus case %s\n", corpus);
     exit(2);
@@ -438,14 +481,17 @@ static void run_futex(uint64_t seed, const char* corpus) {
          w->fr.size(), npools, w->clients.size(), minted, VER0);
   w->ex.start(npools, rng);
   int base_alloc = raw_allocated();
-  for (size_t h = 0; h < w->fr.size(); ++h) start_frame(w, (int)h);
   {
+    // the client threads exist before the coroutines are started, so also the waits that run inline
+    // on the main thread (inplace executor) race with them
     std::vector<std::thread> ts;
     for (auto& ops : w->clients) {
       ts.emplace_back([w, &ops] {
+        sched_yield();
         for (auto& op : ops) client_op(w, op);
       });
     }
+    for (size_t h = 0; h < w->fr.size(); ++h) start_frame(w, (int)h);
     for (auto& t : ts) t.join();
   }
   // drain: make every later wait non-matching and wake everybody until all coroutines finished
@@ -803,19 +849,24 @@ static void run_await(uint64_t seed) {
   if (early)
     for (auto& c : w->clients)
       for (int i : c) setter(i);
-  for (int i = 0; i < n; ++i) {
-    vrt_event("aspawn %d e%d k%d x%d", i, w->inst[i]->exec, w->inst[i]->kind, w->inst[i]->exec2);
-    w->ex.at(w->inst[i]->exec).submit(a_outer(w, i));
-  }
   {
+    // the setter threads exist before the coroutines are started: `set_value` can land at every
+    // scheduling point of await_ready / await_suspend, also for awaits that run inline on the main thread
     std::vector<std::thread> ts;
     for (auto& c : w->clients) {
-      ts.emplace_back([&, early] {
+      uint64_t cs = rng.next();
+      ts.emplace_back([&, early, cs] {
+        Rng r(cs);
         for (int i : c) {
-          if (rng.below(2)) sched_yield();
+          int y = (int)r.below(4);
+          for (int k = 0; k < y; ++k) sched_yield();
           if (!early) setter(i);
         }
       });
+    }
+    for (int i = 0; i < n; ++i) {
+      vrt_event("aspawn %d e%d k%d x%d", i, w->inst[i]->exec, w->inst[i]->kind, w->inst[i]->exec2);
+      w->ex.at(w->inst[i]->exec).submit(a_outer(w, i));
     }
     for (auto& t : ts) t.join();
   }
